@@ -4,7 +4,7 @@
    model of expression_from_string, its postfix program is the grammar's, and under every scope whose keys
    are identifiers it evaluates to the arithmetic value [den e sc] (floor division, floor square root),
    undefined points and unbound names included.  Parsing takes no scope, so it cannot depend on one. *)
-From DL Require Import Base Lexer Parser Eval Grammar Denote ParseEval.
+From DL Require Import Base Lexer Parser Eval Shape Grammar Denote LexPrint ParseEval ShapeSound ShapeComplete.
 
 Theorem C05_parse_eval : forall e, wf 1 e -> names_ok e ->
   exists d, expression_from_string (print_string e) = Ok d /\ d_ident d = print_string e /\
@@ -28,5 +28,17 @@ Proof. vm_compute. repeat split; auto; lia. Qed.
 Example ex5_value : den ex5 [("a", 10%Z); ("b", 3%Z); ("c", 17%Z)] = Ok 25%Z.
 Proof. vm_compute. reflexivity. Qed.
 
+(* the whole shape string: dimensions of the grammar (expressions, `name=` forms, `...`, `*name`; at most one of the last
+   two) separated by single spaces are accepted by TensorTypeBase, dimension by dimension with the meaning above; the
+   multi-axis index is the marker's position *)
+Theorem C05_shape_level : forall gs, gs <> [] -> Forall gdim_ok gs -> gmarkers gs <= 1 ->
+  exists ty, parse_shape (print_shape gs) = Ok ty /\ Forall2 dim_means gs (t_shape ty) /\
+             (gmarkers gs = 0 -> t_mindex ty = None) /\
+             (forall j g, nth_error gs j = Some g -> gmarker g = true -> t_mindex ty = Some j).
+Proof. exact parse_shape_complete. Qed.
+Example ex5_shape : print_shape [GStar "batch"; GNamed "c" (Lit "3"); GExpr ex5; GAnon] = sapp "*batch c=3 " (sapp (print_string ex5) " ...").
+Proof. reflexivity. Qed.
+
 Redirect "C05.assumptions.1" Print Assumptions C05_parse_eval.
+Redirect "C05.assumptions.3" Print Assumptions C05_shape_level.
 Redirect "C05.assumptions.2" Print Assumptions C05_parse_eval_named.
